@@ -43,6 +43,8 @@ type world = {
   mutable vclasses : variant list list;         (* all variants with their min_time *)
   mutable queues : queue list;                  (* index = rq id *)
   mutable tasks : (int * (int * int)) list;     (* task -> (rq, user prio) *)
+  mutable nodes : (int * int) list;             (* multi-node classes: rq -> n_nodes *)
+  mutable counter : int;                        (* Core::worker_counter *)
   mutable decided : bool;
   mutable inst : inst option;
   mutable batches : batch list;
@@ -59,7 +61,7 @@ let mk_variant raw tm =
     v_all = List.filter_map (fun (r, a) -> if a = N0 then Some r else None) raw }
 let class_of_variant v = { rc_entries = v.v_entries; rc_min_time = v.v_min_time; rc_all = v.v_all }
 
-let new_world () = { n_res = 1; workers = []; classes = []; vclasses = []; queues = []; tasks = []; decided = false; inst = None;
+let new_world () = { n_res = 1; workers = []; classes = []; vclasses = []; queues = []; tasks = []; nodes = []; counter = 0; decided = false; inst = None;
                      batches = []; milp = []; vars = []; solution = None; optimal = false; solved_ok = false }
 
 let rec set_nth l i x = match l with [] -> [] | h :: t -> if i = 0 then x :: t else h :: set_nth t (i - 1) x
@@ -97,7 +99,10 @@ let process_trace header lines =
   let monitors = ref [] and tags = ref [] in
   let tag t = if not (List.mem t !tags) then tags := t :: !tags in
   let impl_feasible = ref None in
+  let impl_resp : string list ref = ref [] in
   let cur = ref "" in
+  let query_seen = ref false in
+  let query_check : (string list -> unit) ref = ref (fun _ -> ()) in
   let handle_op toks line =
     pr line;
     match toks with
@@ -140,6 +145,146 @@ let process_trace header lines =
             w.queues <- w.queues @ [ empty_queue ];
             List.length w.vclasses - 1 end in
         pr (Printf.sprintf "= RQ %d" id)
+    | "ADDWA" :: _group :: tl :: units ->
+        let us = List.map ios units in
+        let rec trim l = match List.rev l with 0 :: r -> trim (List.rev r) | _ -> l in
+        let v = List.map (fun u -> n_of_int (u * fr)) (trim us) in
+        w.counter <- w.counter + 1;
+        w.workers <- w.workers @ [ { id = w.counter; res = v; free = v; assigned = []; tl = (if tl = "-" then None else Some (ios tl)); blk = [] } ];
+        pr (Printf.sprintf "= W %d" w.counter)
+    | "ADDRQMN" :: nn :: tm :: _ ->
+        let variants = [ mk_variant [] (n_of_int (ios tm)) ] in
+        let rec idx i = function
+          | [] -> -1
+          | x :: t -> if x = variants && (try List.assoc i w.nodes with Not_found -> 0) = ios nn then i else idx (i + 1) t in
+        let k = idx 0 w.vclasses in
+        let id = if k >= 0 then k else begin
+            w.vclasses <- w.vclasses @ [ variants ];
+            w.classes <- w.classes @ [ [] ];
+            w.queues <- w.queues @ [ empty_queue ];
+            w.nodes <- (List.length w.vclasses - 1, ios nn) :: w.nodes;
+            List.length w.vclasses - 1 end in
+        pr (Printf.sprintf "= RQ %d" id)
+    | "QUERY" :: rest ->
+        w.decided <- true;
+        query_seen := true;
+        let kv = List.map (fun s -> match String.index_opt s '=' with
+            | Some k -> (String.sub s 0 k, String.sub s (k + 1) (String.length s - k - 1)) | None -> (s, "")) rest in
+        let get k = try List.assoc k kv with Not_found -> "" in
+        let qs = List.map (fun q -> match String.split_on_char ':' q with
+            | [ p; tl; msn; mpa; _mu; items ] ->
+                { wq_partial = (p = "1");
+                  wq_desc = List.map (fun e -> match String.split_on_char '/' e with
+                      | [ r; u ] -> (n_of_int (ios r), n_of_int (ios u * fr)) | _ -> failwith "bad item") (split_on ',' items);
+                  wq_time_limit = (if tl = "-" then None else Some (n_of_int (ios tl)));
+                  wq_max_sn = n_of_int (ios msn); wq_max_per_alloc = n_of_int (ios mpa) }
+            | _ -> failwith "bad query") (split_on ';' (get "q")) in
+        let mus = List.map (fun q -> match String.split_on_char ':' q with
+            | [ _; _; _; _; mu; _ ] -> ios mu | _ -> 0) (split_on ';' (get "q")) in
+        let free_real = List.length (List.filter (fun m -> m.assigned = []) w.workers) in
+        let st = { qs_nres = n_of_int w.n_res; qs_now = N0;
+                   qs_classes = List.map (fun vs -> match vs with
+                       | v :: _ -> class_of_variant v
+                       | [] -> { rc_entries = []; rc_min_time = N0; rc_all = [] }) w.vclasses;
+                   qs_nodes = List.mapi (fun i _ -> n_of_int (try List.assoc i w.nodes with Not_found -> 0)) w.vclasses;
+                   qs_queues = w.queues; qs_worker_counter = n_of_int w.counter; qs_free_real = n_of_int free_real } in
+        let vals = List.filter_map (fun e -> match String.split_on_char ':' e with
+            | [ "x"; a; b; _; v ] -> Some (VX (n_of_int (ios a), n_of_int (ios b)), ios v)
+            | [ "R"; a; b; _; v ] -> Some (VR (n_of_int (ios a), n_of_int (ios b)), ios v)
+            | [ "B"; _; b; c; v ] -> Some (VB (n_of_int (ios b), n_of_int (ios c)), ios v)
+            | _ -> None) (split_on ',' (get "x")) in
+        let s v = match List.assoc_opt v vals with Some k -> z_of_int k | None -> Z0 in
+        pr (Printf.sprintf "= STATE counter=%d free_real=%d" w.counter free_real);
+        let show_resp sn mn =
+          Printf.sprintf "RESPONSE sn=%s mn=%s" (join "," (List.map string_of_int sn))
+            (join "," (List.map (fun (a, b, c) -> Printf.sprintf "%d:%d:%d" a b c) mn)) in
+        let model = new_worker_query st qs false true s in
+        (match model with
+         | Ok QErr -> pr "= INVALID"; tag "query-invalid"
+         | Ok (QResp r) ->
+             pr ("= " ^ show_resp (List.map int_of_n r.r_sn)
+                   (List.map (fun e -> (int_of_n e.mn_type, int_of_n e.mn_per_alloc, int_of_n e.mn_max_allocs)) r.r_mn));
+             pr "= MNSORTED 1"
+         | Panic site -> pr "= PANIC compute_new_worker_query"; tag (Printf.sprintf "query-panic-%d" (int_of_n site))
+         | Disabled -> pr "= DISABLED");
+        (* ---- classification ---- *)
+        let i = query_inst st qs in
+        let n_classes = List.length w.vclasses in
+        let rqs = List.init n_classes (fun k -> k) in
+        let sn_waiting_rqs = List.filter (fun rq -> not (is_mn st (n_of_int rq)) && int_of_n (waiting_of i (n_of_int rq)) > 0) rqs in
+        let mn_rqs = List.filter (fun rq -> is_mn st (n_of_int rq)) rqs in
+        tag "query";
+        if qs = [] then tag "query-empty-list";
+        if qs <> [] && List.for_all (fun q -> q.wq_max_sn = N0) qs then tag "query-zero-max-sn";
+        if List.exists (fun q -> q.wq_partial) qs then tag "query-partial";
+        if List.exists (fun q -> q.wq_partial && q.wq_desc = []) qs then tag "query-partial-empty-descriptor";
+        if List.exists (fun q -> not q.wq_partial) qs then tag "query-full";
+        if List.exists (fun mu -> mu > 0) mus then tag "query-min-utilization";
+        if List.length qs >= 2 then tag "query-multi";
+        if List.exists (fun m -> m.assigned <> []) w.workers then tag "query-real-workers-busy";
+        if w.workers = [] then tag "query-no-real-workers";
+        let fits q rq = class_fits i q (n_of_int rq) in
+        if List.exists (fun rq -> List.exists (fun q -> fits q rq) qs && List.exists (fun q -> not (fits q rq)) qs) sn_waiting_rqs
+        then tag "query-class-fits-only-some-query";
+        if List.exists (fun rq -> qs <> [] && List.for_all (fun q -> not (fits q rq)) qs) sn_waiting_rqs then tag "query-class-fits-no-query";
+        if List.exists (fun rq -> List.exists (fun q -> match q.wq_time_limit with
+            | Some t -> int_of_n t < int_of_n (class_min_time st (n_of_int rq)) | None -> false) qs) sn_waiting_rqs
+        then tag "query-min-time-above-time-limit";
+        if mn_rqs <> [] then tag "query-mn-class";
+        if prefix_mn_unwrap st qs then tag "query-pre-F32-mn-batch-alive-with-fake-workers";
+        if prefix_highs_rejects st qs then tag "query-pre-F33-max-row-leak-all-policy";
+        if List.exists (fun rq -> find_query (class_min_time st (n_of_int rq)) (nodes_of st (n_of_int rq)) qs N0 = None) mn_rqs && qs <> []
+        then tag "query-mn-no-admissible-query";
+        (* ---- monitors on the IMPLEMENTATION's response ---- *)
+        let solved = get "solved" = "1" in
+        if solved && not (query_sol_ok st qs s) && (match model with Ok (QResp _) -> true | _ -> false) then
+          monitors := "M C17 FAIL solution-infeasible-for-model-rows the real solver's answer is not a feasible point of the rows the model derives for the fake workers" :: !monitors;
+        query_check := (fun lines ->
+          List.iter (fun body -> match split body with
+            | "RESPONSE" :: rest ->
+                let kv = List.map (fun s -> match String.index_opt s '=' with
+                    | Some k -> (String.sub s 0 k, String.sub s (k + 1) (String.length s - k - 1)) | None -> (s, "")) rest in
+                let get k = try List.assoc k kv with Not_found -> "" in
+                let sn = List.map ios (split_on ',' (get "sn")) in
+                let mn = List.map (fun e -> match List.map ios (String.split_on_char ':' e) with
+                    | [ a; b; c ] -> (a, b, c) | _ -> failwith "bad mn") (split_on ',' (get "mn")) in
+                if List.length sn <> List.length qs then
+                  monitors := Printf.sprintf "M C17 FAIL response-length counts=%d queries=%d" (List.length sn) (List.length qs) :: !monitors
+                else begin
+                  List.iteri (fun k c ->
+                      let q = List.nth qs k in
+                      let cands = List.filter (fun rq -> fits q rq) sn_waiting_rqs in
+                      let cand_tasks = List.fold_left (fun a rq -> a + int_of_n (waiting_of i (n_of_int rq))) 0 cands in
+                      if c > 0 && cands = [] then
+                        monitors := Printf.sprintf "M C17 FAIL demand-without-candidates query=%d workers=%d no waiting single-node class fits the query's descriptor / time limit" k c :: !monitors
+                      else if c > int_of_n q.wq_max_sn then
+                        monitors := Printf.sprintf "M C17 FAIL demand-exceeds-tasks query=%d workers=%d max_sn_workers=%d" k c (int_of_n q.wq_max_sn) :: !monitors
+                      else if c > cand_tasks then
+                        monitors := Printf.sprintf "M C17 FAIL demand-exceeds-tasks query=%d workers=%d waiting tasks that fit=%d" k c cand_tasks :: !monitors;
+                      if c > 0 then tag "query-demand-positive";
+                      if c = 0 && cands = [] && int_of_n q.wq_max_sn > 0 && sn_waiting_rqs <> [] then tag "query-no-candidates-no-demand") sn;
+                  let total = List.fold_left (+) 0 sn in
+                  if total > int_of_n (sn_waiting st) then
+                    monitors := Printf.sprintf "M C17 FAIL demand-exceeds-tasks total workers=%d waiting single-node tasks=%d" total (int_of_n (sn_waiting st)) :: !monitors
+                end;
+                (* multi-node entries: exactly one per multi-node class with an admissible query *)
+                let expected = List.concat_map (fun rq ->
+                    List.map (fun e -> (int_of_n e.mn_type, int_of_n e.mn_per_alloc, int_of_n e.mn_max_allocs))
+                      (mn_entry_of st qs (n_of_int rq) (List.nth w.queues rq))) mn_rqs in
+                List.iter (fun ((k, n, a) as e) ->
+                    if not (List.mem e expected) then
+                      monitors := Printf.sprintf "M C17 FAIL mn-demand-without-candidates worker_type=%d workers_per_allocation=%d max_allocations=%d: no multi-node class with that many nodes and queue size has this query as its first admissible one" k n a :: !monitors)
+                  mn;
+                List.iter (fun ((k, n, a) as e) ->
+                    if not (List.mem e mn) then
+                      monitors := Printf.sprintf "M C17 FAIL mn-demand-missing worker_type=%d workers_per_allocation=%d max_allocations=%d" k n a :: !monitors)
+                  expected;
+                if mn <> [] then tag "query-mn-entry";
+                if List.exists (fun (_, _, a) -> a = 0) mn then tag "query-mn-entry-empty-queue";
+                if (List.exists (fun c -> c > 0) sn || List.exists (fun (_, _, a) -> a > 0) mn)
+                   && (List.mem "query-class-fits-only-some-query" !tags || List.mem "query-class-fits-no-query" !tags
+                       || List.mem "query-mn-no-admissible-query" !tags || List.length qs >= 2) then tag "nontrivial"
+            | _ -> ()) lines)
     | "BLOCK" :: wk :: rq :: v :: _ ->
         let m = List.find (fun m -> m.id = ios wk) w.workers in
         m.blk <- (ios rq, ios v) :: m.blk
@@ -384,9 +529,13 @@ let process_trace header lines =
         | 'O' -> cur := body; handle_op (split body) line
         | '=' -> (match split body with
             | "FEASIBLE" :: v :: _ -> if v <> "-" then impl_feasible := Some (v = "1")
+            | ("RESPONSE" | "INVALID" | "PANIC") :: _ when !query_seen -> impl_resp := !impl_resp @ [ body ]
+            | "MNSORTED" :: v :: _ when !query_seen ->
+                if v <> "1" then monitors := "M C17 FAIL mn-list-not-sorted the multi-node list is not sorted by (worker_type, worker_per_allocation)" :: !monitors
             | _ -> ())
         | _ -> ()
       end) lines;
+  !query_check !impl_resp;
   List.iter pr (List.rev !monitors);
   if List.length w.classes >= 2 then tag "multi-class";
   (* `All` policy in the row-system modes: how often, and how often next to a partly busy worker that has
